@@ -220,6 +220,14 @@ func c13sameOrigin(c *Ctx, u *upgA, rule string) {
 						origin = t
 					}
 				}
+				// r.Header.Values("Origin") is the same slice
+				if t.Kind == core.KCall && len(t.Args) == 2 && isRequestHeader(t.Args[0]) {
+					if f, isF := t.Ref.(*ssa.Function); isF && extName(f) == "(net/http.Header).Values" {
+						if k, isS := t.Args[1].StrVal(); isS && k == "Origin" {
+							origin = t
+						}
+					}
+				}
 				return true
 			})
 		}
